@@ -87,8 +87,10 @@ func raceBuild(s *vs.Sched, o raceOpts, dir string) {
 						break
 					}
 					v := []byte(fmt.Sprint(j))
-					b.Set([]byte(fmt.Sprintf("m%d", i)), v)
+					// keys are inserted in descending order so that a deferred sort really moves entries
+					b.Set([]byte(fmt.Sprintf("z%d", i)), v)
 					b.Set([]byte(fmt.Sprintf("p%d", i)), v)
+					b.Set([]byte(fmt.Sprintf("m%d", i)), v)
 					if o.Children {
 						cb, _ := b.NewChildCollectionBatch(fmt.Sprintf("K%d", i), moss.BatchOptions{TotalOps: 2, TotalKeyValBytes: 16})
 						cb.Set([]byte("c"), v)
